@@ -9,24 +9,25 @@ VARIABLE hist
 
 \* expectation for one query against version v: the admissible answers
 \* (ideal), and -- where the transcription with the open deviations predicts
-\* something else -- that prediction and the deviations that explain it
+\* something else -- each such answer with the deviations that explain it
 Chk(v, qn, qt) ==
   LET e == Admissible(v, qn, qt)
       c == ConcreteAnswer(store, v, qn, qt, Dev)
-  IN [v |-> v, qn |-> qn, qt |-> qt, exp |-> e, dev |-> c \ e, blame |-> Blame(v, qn, qt)]
+  IN [v |-> v, qn |-> qn, qt |-> qt, exp |-> e,
+      dev |-> {[ans |-> a, blame |-> BlameOf(v, qn, qt, a)] : a \in c \ e}]
 
 \* C09: the reference is the answer the version gave when it was published
 Chk9(v, qn, qt) ==
   LET e == SnapAnswer(v, qn, qt)
       c == ConcreteAnswer(store, v, qn, qt, Dev)
-  IN [v |-> v, qn |-> qn, qt |-> qt, exp |-> e, dev |-> c \ e,
-      blame |-> IF c \subseteq e THEN {} ELSE {"D_unversioned_node_creation"}]
+  IN [v |-> v, qn |-> qn, qt |-> qt, exp |-> e,
+      dev |-> {[ans |-> a, blame |-> {"D_unversioned_node_creation"}] : a \in c \ e}]
 
 WalkChk(v) ==
   LET w == WalkOf(store, v, Dev)
   IN [on |-> TRUE, v |-> v, exp |-> committed[v],
-      dev |-> IF w = committed[v] THEN {} ELSE {w},
-      blame |-> IF w = committed[v] THEN {} ELSE {d \in Dev : WalkOf(store, v, Dev \ {d}) # w}]
+      dev |-> IF w = committed[v] THEN {}
+              ELSE {[ans |-> w, blame |-> {d \in Dev : WalkOf(store, v, Dev \ {d}) # w}]}]
 NoWalk == [on |-> FALSE]
 
 FreshPoint == act.a \in {"Build", "CommitPushVersion", "DropWriter"}
